@@ -33,6 +33,33 @@ class T:  # a user type with user codecs
         return f"T({self.v!r})"
 
 
+class TS(T):  # a subclass of the type the user codecs are registered for
+    def __init__(self, v, extra):
+        super().__init__(v)
+        self.extra = extra
+
+    def __eq__(self, o):
+        return type(o) is TS and o.v == self.v and o.extra == self.extra
+
+    def __repr__(self):
+        return f"TS({self.v!r}, {self.extra!r})"
+
+
+import enum
+
+
+class Mode(str, enum.Enum):  # a str subclass: not text, must come back as the enum member
+    FAST = "fast"
+
+
+class MyBytes(bytes):
+    pass
+
+
+class MyDict(dict):
+    pass
+
+
 def user_codecs():
     from dds.structures import FileCodecProtocol, CodecProtocol, ProtocolRef, SupportedType
 
@@ -116,6 +143,7 @@ def values():
         ("b_empty", b""), ("b_bin", b"\x00\xff\r\n\x1a"), ("b_big", big.encode() + b"\x00"), ("ba", bytearray(b"\x01\x02")),
         ("none", None), ("int", 42), ("dict", {"a": [1, 2], "b": None}), ("obj", Obj("o")),
         ("df", pd.DataFrame({"x": [1, 2], "y": ["a", "b"]})), ("t", T(7)), ("t2", T("s")),
+        ("t_sub", TS(1, "more")), ("str_enum", Mode.FAST), ("bytes_sub", MyBytes(b"raw")), ("dict_sub", MyDict(a=1)),
     ])
 
 
@@ -225,16 +253,16 @@ def apply(s, op):
         ref = _meta_ref(s, name)
         s.written[name] = ref
         raw = _blob_bytes(s, name)
-        if isinstance(v, str) and ref in ("local.string",):
+        if type(v) is str and ref in ("local.string",):
             if raw != v.encode("utf-8"):
                 bad("verbatim|str", f"blob file of {name} is not the UTF-8 text: {raw[:20]!r}...")
-        if isinstance(v, (bytes, bytearray)) and ref in ("local.bytes",):
+        if type(v) in (bytes, bytearray) and ref in ("local.bytes",):
             if raw != bytes(v):
                 bad("verbatim|bytes", f"blob file of {name} is not the raw bytes: {raw[:20]!r}...")
-        if isinstance(v, (str, bytes)) and ref and ref.startswith("local.") and ref not in ("local.string", "local.bytes"):
+        if type(v) in (str, bytes) and ref and ref.startswith("local.") and ref not in ("local.string", "local.bytes"):
             bad(f"verbatim|{type(v).__name__}|written_by={ref}", f"{name} written by {ref}")
         # the committed path exposes the same bytes (local: file under the data directory)
-        if isinstance(v, (str, bytes)) and s.kind == "local" and ref in ("local.string", "local.bytes"):
+        if type(v) in (str, bytes) and s.kind == "local" and ref in ("local.string", "local.bytes"):
             rs = call(lambda: s.store.sync_paths(OrderedDict([("/out/" + name, _h(name))])))
             fp = os.path.join(s.root, "d", "out", name)
             want = v.encode("utf-8") if isinstance(v, str) else bytes(v)
@@ -274,6 +302,7 @@ def key(s):
 WINDOWS = [
     ["s_ascii", "t", "b_bin"], ["s_empty", "none", "t2"], ["s_uni", "dict", "df"], ["s_big", "ba", "int"],
     ["s_nl", "b_empty", "obj"], ["s_anl", "s_sp", "b_big"], ["s_crlf", "t", "s_ascii"],
+    ["t_sub", "str_enum", "t"], ["bytes_sub", "dict_sub", "s_ascii"],
 ]
 
 
